@@ -141,7 +141,7 @@ def run_case(ctx, c):
 def run_atheris(shard, ctx):
     import subprocess, sys, os, json, re, tempfile
     verif = os.path.dirname(os.path.dirname(os.path.dirname(os.path.abspath(__file__))))
-    env = dict(os.environ, PYTHONPATH=os.path.join(verif, ".deps"))
+    env = dict(os.environ, PYTHONPATH=os.path.join(verif, ".deps"), BV_FUZZ_SCRATCH=os.path.join(os.getcwd(), "fuzz_scratch"))
     try:
         subprocess.check_call([sys.executable, "-c", "import atheris"], env=env, stdout=subprocess.DEVNULL, stderr=subprocess.DEVNULL)
     except Exception:
